@@ -88,10 +88,13 @@ func genHistory(r *vh.Rng, stream string) jobctl.History {
 				if r.Chance(1, 3) {
 					continue
 				}
-				h.Pods = append(h.Pods, jobctl.Pod{Task: t.Name, Idx: i, Phase: int64(vh.Pick(r, []int{0, 0, 1, 1, 1, 4})),
+				h.Pods = append(h.Pods, jobctl.Pod{Task: t.Name, Idx: i, Phase: int64(vh.Pick(r, []int{0, 0, 1, 1, 1, 4, 2, 3})),
 					Del: r.Chance(1, 7), Oos: r.Chance(1, 8)})
 			}
 		}
+	}
+	if stream == "noqueue" && r.Chance(2, 3) {
+		h.NoQueue = true
 	}
 	n := r.Range(2, 14)
 	cur := s
@@ -109,16 +112,22 @@ func genHistory(r *vh.Rng, stream string) jobctl.History {
 					}
 				}
 			}
+			if stream == "pgfault" && r.Chance(2, 3) {
+				o.Req.Faults = append(o.Req.Faults, jobctl.Fault{Kind: int64(vh.Pick(r, []int{5, 6, 6, 6})), A: int64(r.Range(1, 2))})
+			}
 			h.Ops = append(h.Ops, o, jobctl.Op{Code: 7}, jobctl.Op{Code: 8})
 		case x < 60:
 			cur = rescale(r, cur)
 			h.Ops = append(h.Ops, jobctl.Op{Code: 9, Spec: cur})
 			if stream != "stale" || r.Chance(1, 2) {
 				h.Ops = append(h.Ops, jobctl.Op{Code: 6})
+				if r.Chance(1, 4) {
+					h.Ops = append(h.Ops, jobctl.Op{Code: 13}) // an older job version arrives late
+				}
 			}
 		case x < 78:
 			t, i := genPodRef(r, cur)
-			h.Ops = append(h.Ops, jobctl.Op{Code: 2, T: t, I: i, Ph: int64(vh.Pick(r, []int{0, 1, 1, 1, 4}))})
+			h.Ops = append(h.Ops, jobctl.Op{Code: 2, T: t, I: i, Ph: int64(vh.Pick(r, []int{0, 1, 1, 1, 4, 2, 3}))})
 			if stream != "stale" {
 				h.Ops = append(h.Ops, jobctl.Op{Code: 7})
 			}
@@ -130,23 +139,59 @@ func genHistory(r *vh.Rng, stream string) jobctl.History {
 			}
 		case x < 90:
 			h.Ops = append(h.Ops, jobctl.Op{Code: 5, Ph: int64(vh.Pick(r, []int{1, 2, 3, 3}))}, jobctl.Op{Code: 8})
-		case x < 95:
+		case x < 93:
 			h.Ops = append(h.Ops, jobctl.Op{Code: 7})
-		default:
+		case x < 96:
 			h.Ops = append(h.Ops, jobctl.Op{Code: 8})
+		default:
+			switch stream {
+			case "restart":
+				// controller restart; the informers deliver pods, job and PodGroup in any order,
+				// possibly with a request in between
+				h.Ops = append(h.Ops, jobctl.Op{Code: 10})
+				order := vh.Pick(r, [][]int64{{7, 6, 8}, {7, 6, 8}, {6, 7, 8}, {7, 8, 6}, {8, 7, 6}, {6, 8, 7}, {8, 6, 7}})
+				for k, c := range order {
+					h.Ops = append(h.Ops, jobctl.Op{Code: c})
+					if k < 2 && r.Chance(1, 4) {
+						h.Ops = append(h.Ops, syncReq())
+					}
+				}
+				h.Ops = append(h.Ops, syncReq(), jobctl.Op{Code: 7}, jobctl.Op{Code: 8})
+			case "recreate":
+				cur = rescale(r, cur)
+				h.Ops = append(h.Ops, jobctl.Op{Code: 11, Spec: cur})
+				if r.Chance(1, 3) {
+					h.Ops = append(h.Ops, jobctl.Op{Code: 10}, jobctl.Op{Code: 7})
+				}
+				h.Ops = append(h.Ops, jobctl.Op{Code: 6}, jobctl.Op{Code: 8}, syncReq(), jobctl.Op{Code: 8},
+					jobctl.Op{Code: 5, Ph: 3}, jobctl.Op{Code: 8}, syncReq(), jobctl.Op{Code: 7})
+			case "deleting":
+				h.Ops = append(h.Ops, jobctl.Op{Code: 12})
+				if r.Chance(2, 3) {
+					h.Ops = append(h.Ops, jobctl.Op{Code: 6})
+				}
+			default:
+				h.Ops = append(h.Ops, jobctl.Op{Code: 8})
+			}
 		}
 	}
 	return h
 }
 
 func gen(rng *vh.Rng, n int, emit func(id string, sel int, in []int64, kind string, nontrivial bool, desc any)) {
-	streams := []string{"scale", "crash", "deps", "pgpending", "stale", "scale", "crash"}
+	streams := []string{"scale", "crash", "deps", "pgpending", "stale", "restart", "recreate", "pgfault", "restart", "deleting", "noqueue", "pgfault"}
 	for i := 0; i < n; i++ {
 		r := rng.Fork()
 		stream := streams[i%len(streams)]
 		h := genHistory(r, stream)
 		w := &jobctl.W{}
 		w.History(h)
+		if stream == "pgfault" {
+			// the world model does not carry the PodGroup spec: these histories are judged by the laws only
+			emit(fmt.Sprintf("hist-%s-%d", stream, i), 5, w.T, "history/"+stream, true,
+				map[string]any{"tasks": len(h.Spec.Tasks), "ops": len(h.Ops)})
+			continue
+		}
 		total := int64(0)
 		for _, t := range h.Spec.Tasks {
 			total += t.Replicas
@@ -166,17 +211,37 @@ func gen(rng *vh.Rng, n int, emit func(id string, sel int, in []int64, kind stri
 		w.Spec(s)
 		emit(fmt.Sprintf("minres-%d", i), 3, w.T, "calcPGMinResources", len(s.Tasks) >= 2, nil)
 	}
-	for i := 0; i < n; i++ {
+	for i := 0; i < 2*n; i++ {
 		r := rng.Fork()
 		s0 := genSpec(r, false)
 		s1 := rescale(r, s0)
-		upd := r.Chance(2, 3)
+		if r.Chance(1, 4) {
+			s1 = s0 // no change: no write is attempted
+		}
+		if r.Chance(1, 4) && len(s1.Tasks) > 0 { // only the requests / priorities change
+			k := r.Intn(len(s1.Tasks))
+			s1.Tasks = append([]jobctl.Task{}, s1.Tasks...)
+			s1.Tasks[k].Cpu = int64(vh.Pick(r, []int{0, 100, 250, 1000}))
+			s1.Tasks[k].Prio = int64(r.Intn(5))
+		}
+		mode := int64(vh.Pick(r, []int{0, 1, 1, 1, 1, 2, 2, 3}))
+		fail := int64(vh.Pick(r, []int{0, 0, 1, 2}))
+		p0 := int64(r.Intn(4))
+		p1 := p0
+		if r.Chance(1, 3) {
+			p1 = int64(r.Intn(4))
+		}
 		w := &jobctl.W{}
-		w.Z(int64(r.Intn(4)))
+		w.Z(p0)
 		w.Spec(s0)
-		w.B(upd)
-		w.Z(int64(r.Intn(4)))
+		w.Z(mode)
+		w.Z(p1)
 		w.Spec(s1)
-		emit(fmt.Sprintf("podgroup-%d", i), 4, w.T, "createOrUpdatePodGroup", upd, nil)
+		w.Z(fail)
+		kind := []string{"create", "update/fresh-lister", "update/empty-lister", "update/orphan-lister"}[mode]
+		if fail != 0 {
+			kind += "/refused"
+		}
+		emit(fmt.Sprintf("podgroup-%d", i), 4, w.T, "createOrUpdatePodGroup/"+kind, mode != 0, nil)
 	}
 }
